@@ -1,0 +1,33 @@
+//! Verification hooks. Compiled only with the `verif` feature; never enabled by default.
+//!
+//! `yield_point` lets an external harness run other tasks between the steps of a synchronous
+//! function (used inside the client call guard's `drop`). It does nothing unless a hook has been
+//! installed on the current thread.
+
+use std::cell::RefCell;
+
+thread_local! {
+    static HOOK: RefCell<Option<Box<dyn FnMut(&'static str)>>> = const { RefCell::new(None) };
+}
+
+/// Installs (or clears) the current thread's yield hook, returning the previous one.
+pub fn set_yield_hook(
+    hook: Option<Box<dyn FnMut(&'static str)>>,
+) -> Option<Box<dyn FnMut(&'static str)>> {
+    HOOK.with(|h| std::mem::replace(&mut *h.borrow_mut(), hook))
+}
+
+/// Invokes the current thread's yield hook, if any. The hook is taken out while it runs, so a
+/// yield point reached from inside the hook is a no-op.
+pub fn yield_point(name: &'static str) {
+    let hook = HOOK.with(|h| h.borrow_mut().take());
+    if let Some(mut hook) = hook {
+        hook(name);
+        HOOK.with(|h| {
+            let mut slot = h.borrow_mut();
+            if slot.is_none() {
+                *slot = Some(hook);
+            }
+        });
+    }
+}
